@@ -51,8 +51,28 @@ pub fn gen_scenario(seed: u64, fixtures: &[String]) -> Scenario {
     // deep mode: every document nests 10-40 levels, so that several calls are deep inside the
     // recursive conversion at the same time
     let deep_mode = rng.chance(0.2);
+    // long flat mode (rare, expensive): thousands of children directly below the root, escape
+    // hatches sprinkled in - whatever splits, batches or samples a long child list shows here
+    let flat_mode = !deep_mode && rng.chance(0.012);
     for j in 0..ndocs {
-        let d = if deep_mode {
+        let d = if flat_mode {
+            let lines = rng.range(700, 1400);
+            let mut text = String::new();
+            let mut g = DocGen::new(mix(seed, 400 + j as u64), mix(seed, 100 + j as u64)).with_loose(0.5);
+            for k in 0..lines {
+                match rng.below(12) {
+                    0 => text.push_str("// @typstyle off\n#let   q  =  (1,2 ,3)\n"),
+                    1 => text.push_str("// note\n#let   r  =  (1,2 ,3)\n"),
+                    2 => {
+                        text.push_str(&g.item());
+                        text.push('\n');
+                    }
+                    3 => text.push_str("some prose here\n\n"),
+                    _ => text.push_str(&format!("#let v{} = {}\n", k, k)),
+                }
+            }
+            text
+        } else if deep_mode {
             let s = if twins { shape_seed } else { mix(seed, 300 + j as u64) };
             let mut g = DocGen::new(s, mix(seed, 100 + j as u64)).with_loose(0.5);
             let mut text = String::new();
@@ -86,7 +106,7 @@ pub fn gen_scenario(seed: u64, fixtures: &[String]) -> Scenario {
     let hot_cfg = gen_cfg(&mut rng);
     let mut threads: Vec<Vec<Call>> = Vec::new();
     for _ in 0..nthreads {
-        let ncalls = rng.range(1, 6);
+        let ncalls = if flat_mode { rng.range(1, 2) } else { rng.range(1, 6) };
         let mut script: Vec<Call> = Vec::new();
         while script.len() < ncalls {
             let doc = if rng.chance(0.6) { hot_doc } else { rng.below(ndocs) };
